@@ -8,10 +8,10 @@ class TxSpec(Spec):
     isolated_mutants = True
     wall_cap = {'quick': 1200, 'thorough': 7200}
     strata = {
-        'quick': [('core', 6), ('nofault', 3), ('exotic', 1)],
-        'thorough': [('core', 6), ('nofault', 3), ('exotic', 1)],
+        'quick': [('core', 12), ('nofault', 6), ('exotic', 2), ('pooled', 1), ('pooled_nofault', 1)],
+        'thorough': [('core', 12), ('nofault', 6), ('exotic', 2), ('pooled', 2), ('pooled_nofault', 1)],
     }
-    runs = {'quick': 300000, 'thorough': 6000000}
+    runs = {'quick': 300000, 'thorough': 5000000}
     observe_only_strata = ('exotic',)
     components = {
         'real': ['edb/server/compiler/dbstate.py: Transaction, CompilerConnectionState (incl. __getstate__/__setstate__, sync_tx, sync_to_savepoint)',
@@ -22,6 +22,10 @@ class TxSpec(Spec):
         'model': ['server side: transcription of dbview.pyx (start, on_success, on_error, declare_savepoint, rollback_tx_to_savepoint, abort_tx, '
                   '_check_in_tx_error, _compile), execute.pyx (execute) and binary.pyx (_execute_rollback, error handling); Cython cannot be built here',
                   'backend: PostgreSQL transaction/savepoint semantics over (schema tag+modules, aliases, session config)'],
+        'pooled_strata': ['strata pooled / pooled_nofault: 1-3 concurrent sessions (one database each) whose compiles go through the REAL '
+                          'compiler pool (pool.py FixedPool / SimpleAdaptivePool, queue.py, amsg.py hub) to REAL worker.py instances '
+                          '(1-3 simulated processes, real worker_proc.worker() loop) running the real compiler transaction code; worker '
+                          'crashes, slow workers, template restarts; rpc.CompilationRequest (de)serialisation is an in-process table'],
         'not_covered': ['migration blocks (START/COMMIT/ABORT MIGRATION) driven from compiler/ddl.py', 'SQL-protocol transaction state',
                         'execution of accepted multi-statement scripts (implicit transactions)', 'the server-side compiled-query cache'],
     }
@@ -37,6 +41,9 @@ class TxSpec(Spec):
     ]
 
     def run_world(self, tape, stratum, mutant=None, record=False, **kw):
+        if stratum.startswith('pooled'):
+            from worlds import txpool
+            return txpool.run(tape, stratum=stratum, mutant=mutant, record=record)
         return txstate.run(tape, stratum=stratum, mutant=mutant, record=record)
 
     def render_sample(self, result, tape):
@@ -87,6 +94,14 @@ MUTANTS = [
     {'name': 'commit_unit_never_carries_schema',
      'patches': [(CP, """        final_user_schema = cur_tx.get_user_schema_if_updated()""",
                   """        final_user_schema = None""")]},
+    # a pool-side change whose effect is a C09 violation (two components): without it a
+    # compile that raised half-way leaves a mutated live state that the same worker reuses
+    {'name': 'pool_reuses_last_state_after_failed_call', 'strata': ['pooled'], 'budget': 60000,
+     'patches': [('edb/server/compiler_pool/pool.py', """            worker._last_pickled_state = None
+            result = await worker.call(""", """            result = await worker.call("""),
+                 ('edb/server/compiler_pool/pool.py', """            worker._last_pickled_state = None
+            units, new_pickled_state = await worker.call(""",
+                  """            units, new_pickled_state = await worker.call(""", 0)]},
     # two cooperating sites: each alone is healed by the other mechanism
     {'name': 'rollback_to_does_not_restore_and_no_resync',
      'patches': [(DS, """            if sp.name == name:
